@@ -35,8 +35,8 @@ def resName {α : Type} (r : Except MErr α) (okName : α → String) : String :
   | .error e => e.name
 
 def counters : Option Upd → String
-  | none => "recv=- ; total=- ; complete=-"
-  | some u => s!"recv={u.received} ; total={u.n} ; complete={u.complete}"
+  | none => "recv=- ; total=- ; complete=- ; rem=-"
+  | some u => s!"recv={u.received} ; total={u.n} ; complete={u.complete} ; rem={u.n - u.received}"
 
 /-- SplitMix64 of the harness (`util::Rng`) -/
 def rngNew (seed : Nat) : Nat := (seed * 0x9E3779B97F4A7C15 + 0x123456789ABCDEF1) % 2 ^ 64
